@@ -190,6 +190,16 @@ def search(prop, disagreements, notes):
     fails = filter_failures(prop, rep)
     notes.append('failing-input search: %d items, %d queries in %s, %d relevant failures' %
                  (rep['items'], rep['queries'], cfg, len(fails)))
+    if not fails and engine.PROPS[prop].get('diagnostics'):
+        try:
+            import eharness
+            named = eharness.directed(prop, cfg)
+            notes.append('directed diagnostics search: %d compile-ready items validate differently in %s' % (len(named), cfg))
+            if named:
+                crep = eharness.run(prop, cfg, 0, named=named)
+                fails = crep['failures']
+        except Exception as e:
+            notes.append('directed diagnostics search error: %r' % (e,))
     if not fails and prop in PROBE_PROPS:
         try:
             prep = probe_directed(prop, cfg, notes)
